@@ -232,3 +232,98 @@ def flw23_filter_exactly_once(ctx):
                                'a second expression of the query ignores the WHERE clause'), where(t))
     ctx.note('FLW-23: %d function(s) in scope, %d apply_filter site(s), %d partition-length source(s), '
              '%d compile calls in the per-partition planners' % (len(scope), n_apply, n_src, n_calls))
+
+
+# ------------------------------------------------------------------------------------ FLW-25
+TYPE_TY = 'engine::data_types::types::Type'
+
+
+def flw25_decoded_once(ctx):
+    """`compile_expr` returns a plan together with its `Type`; the type carries the codec that still has
+    to be applied to the plan.  An arm that applies `t.codec.decode(plan)` itself has to return a type
+    without that codec (`t.decoded()`, `Type::integer()`, ...): handing back the decoded plan together
+    with the original `t` makes the enclosing expression decode a second time - for an offset-encoded
+    column the offset is added twice, silently."""
+    ctx.rule('FLW-25', 'decode exactly once: a plan that an arm of compile_expr has decoded with the codec of '
+                       'its type is never returned together with that same (still encoded) type', floor=6)
+    P = ctx.P
+    F = P.one('QueryPlan::compile_expr')
+    F.parse()
+    cfg = CFG(F)
+    rd = ReachingDefs(F, cfg)
+    du = DefUse(F)
+    decodes = {}
+    for blk, t in F.calls():
+        if blk.cleanup or not norm_callee(t.func or '').endswith('Codec::decode') or not t.args:
+            continue
+        tl = None
+        org = du.origins(base_local(t.args[0]), through_calls=False)
+        for (_b, s) in org['stmts']:
+            m = re.search(r'\(\(?\*?_(\d+)\)?\.\d+: mem_store::codec::Codec\)', s.rhs or '')
+            if m and TYPE_TY in (F.local_type(int(m.group(1))) or ''):
+                tl = int(m.group(1))
+        decodes[(blk.id, len(blk.stmts))] = (t, tl)
+    ctx.require(len(decodes) >= 6, 'FLW-25: fewer than 6 Codec::decode calls in compile_expr (%d)' % len(decodes))
+
+    def plan_typed(l):
+        return 'BufferRef' in (F.local_type(l) or '')
+
+    def type_typed(l):
+        return TYPE_TY in (F.local_type(l) or '')
+
+    def stop_plan(d):
+        return d[2] == 'term' and _is_compiler(d[3])
+
+    def stop_type(d):
+        if d[2] != 'term':
+            return False
+        m = norm_callee(d[3].func or '').split('::')[-1]
+        return m not in ('clone', 'deref', 'borrow', 'into', 'from')
+    order = sorted(decodes, key=lambda k: (decodes[k][0].span.line if decodes[k][0].span else 0, k))
+    rank = {id(decodes[k][0]): i + 1 for i, k in enumerate(order)}
+    per = {}
+    reported = set()
+    n_tuples = 0
+    for bid, blk in F.blocks.items():
+        if blk.cleanup:
+            continue
+        for idx, s in enumerate(blk.stmts):
+            if s.kind != 'assign' or not s.rhs.startswith('('):
+                continue
+            lt = F.local_type(base_local(s.lhs)) or ''
+            if not (lt.startswith('(') and 'TypedBufferRef' in lt and TYPE_TY in lt):
+                continue
+            ops = [x.strip() for x in s.rhs.strip()[1:-1].split(', ')]
+            if len(ops) != 2:
+                continue
+            p, y = base_local(ops[0]), base_local(ops[1])
+            if p is None or y is None:
+                continue
+            n_tuples += 1
+            sp = rd.slice_back(p, bid, idx, stop=stop_plan, follow=plan_typed)
+            used = [decodes[(d[0], d[1])] for d in sp['defs'] if d[2] == 'term' and (d[0], d[1]) in decodes]
+            if not used:
+                continue
+            sy = rd.slice_back(y, bid, idx, stop=stop_type, follow=type_typed)
+            ylocals = {y}
+            for d in sy['defs']:
+                if d[2] == 'stmt':
+                    ylocals.add(base_local(d[3].lhs))
+                    ylocals |= {l for l in ReachingDefs.def_inputs(d) if type_typed(l)}
+                elif not stop_type(d):
+                    ylocals |= {l for l in ReachingDefs.def_inputs(d) if type_typed(l)}
+            for (dt, tl) in used:
+                key = (dt.span.short() if dt.span else str(dt), s.span.short() if s.span else idx)
+                if key in reported:
+                    continue
+                reported.add(key)
+                bad = tl is not None and tl in ylocals
+                per[rank[id(dt)]] = per.get(rank[id(dt)], 0) + 1
+                ctx.check('FLW-25', 'compile_expr|decode#%d|result#%d|type-returned-without-codec' %
+                          (rank[id(dt)], per[rank[id(dt)]]), not bad,
+                          'plan decoded with the codec of its type at %s is returned with %s' %
+                          (dt.span.short() if dt.span else '?',
+                           'a type that no longer carries that codec' if not bad else
+                           'the same, still encoded type: the enclosing expression decodes again (an offset-'
+                           'encoded column gets its offset added twice)'), where(s))
+    ctx.note('FLW-25: %d decode calls, %d (plan, type) results in compile_expr' % (len(decodes), n_tuples))
